@@ -479,36 +479,37 @@ func (m *Machine) observe(label string, v value, t types.Type) {
 		if ii, ok := intOf(t); ok {
 			o.Signed = ii.signed
 		}
-		p.define(x.T)
 	case *SymStr:
 		o.StrB = x.B
-		for _, b := range x.B {
-			if s, ok := b.(*Sym); ok {
-				p.define(s.T)
-			}
-		}
 	}
 	p.obs = append(p.obs, o)
 }
 
-// evalObservations evaluates recorded observations under the current model.
-func (p *Path) evalObservations() []string {
+// evalObservations evaluates recorded observations under a model.
+func (p *Path) evalObservations(mdl Model) []string {
 	var out []string
+	ev := func(t *smt.Term) (uint64, bool) {
+		r, ok := p.F.Eval(t, mdl, map[int]*smt.Term{})
+		if !ok {
+			return 0, false
+		}
+		return r.U, true
+	}
 	for _, o := range p.obs {
 		switch {
 		case o.Term != nil:
-			v, ok := p.modelValues([]*smt.Term{o.Term})
+			v, ok := ev(o.Term)
 			if !ok {
 				out = append(out, o.Label+"=?")
 				continue
 			}
 			if o.Term.Sort.Kind == smt.KBool {
-				out = append(out, fmt.Sprintf("%s=%v", o.Label, v[0] == 1))
+				out = append(out, fmt.Sprintf("%s=%v", o.Label, v == 1))
 			} else if o.Signed {
 				ii := intInfo{o.Term.Sort.W, true}
-				out = append(out, fmt.Sprintf("%s=%d", o.Label, ii.norm(int64(v[0]))))
+				out = append(out, fmt.Sprintf("%s=%d", o.Label, ii.norm(int64(v))))
 			} else {
-				out = append(out, fmt.Sprintf("%s=%d", o.Label, v[0]))
+				out = append(out, fmt.Sprintf("%s=%d", o.Label, v))
 			}
 		case o.StrB != nil:
 			bs := make([]byte, len(o.StrB))
@@ -518,11 +519,11 @@ func (p *Path) evalObservations() []string {
 				case int64:
 					bs[i] = byte(x)
 				case *Sym:
-					v, ok := p.modelValues([]*smt.Term{x.T})
+					v, ok := ev(x.T)
 					if !ok {
 						okAll = false
 					} else {
-						bs[i] = byte(v[0])
+						bs[i] = byte(v)
 					}
 				}
 			}
